@@ -7,7 +7,7 @@ integer / zero short-cut (x, 1); (3) the assertions inside gcd_special cannot fi
 NOT decided: that gcd_special computes the gcd (Stein's loop) - hence "equal values hash equally" holds modulo that.
 """
 from ..absint import Interp, Opts, Agg, Int, K, State, PanicExc, Stop, ZERO, NONZERO, POS
-from ..harness import (M, SCALES_ALL, dec_val, poly_eq, show_outcome, show_poly, get_db, run_jobs)
+from ..harness import (dec_coeff, M, SCALES_ALL, dec_val, poly_eq, show_outcome, show_poly, get_db, run_jobs)
 from ..db import span_str
 from ..poly import padd, pscale, pconst, pmul, patom, pfreeze, Atoms
 from ..rules import fwd
@@ -47,7 +47,7 @@ def run_job(job):
             return [('B-RATIO', 'p=%d;x=%s' % (p, xcls), False, 'impl AsIntegerRatio for Decimal::%s not found' % meth, None)]
         st = State(atoms)
         d = dec_val(st, 'x', p, lo, hi)
-        x_poly = d.fields[0].p
+        x_poly = dec_coeff(d).p
         I.call_root(st, fn, [d])
         outs = I.explore(st)
         if len(outs) != 1 or outs[0].kind != 'ret':
